@@ -83,10 +83,10 @@ type AssumeFailed struct{}
 // CutPath is the panic value of Cut (native only).
 type CutPath struct{ Label string }
 
-func Int(name string) int       { return int(int64(value(name))) }
-func Int32(name string) int32   { return int32(uint32(value(name))) }
-func Byte(name string) byte     { return byte(value(name)) }
-func Bool(name string) bool     { return value(name)&1 != 0 }
+func Int(name string) int     { return int(int64(value(name))) }
+func Int32(name string) int32 { return int32(uint32(value(name))) }
+func Byte(name string) byte   { return byte(value(name)) }
+func Bool(name string) bool   { return value(name)&1 != 0 }
 func Bytes(name string, n int) []byte {
 	out := make([]byte, n)
 	for i := range out {
@@ -141,11 +141,11 @@ func IteByte(c bool, a, b byte) byte {
 	}
 	return b
 }
-func EqStr(a, b string) bool  { return a == b }
-func Concrete(x int) int      { return x }
-func Symbolic() bool          { return false }
-func IsConcrete(x int) bool   { return true }
-func Fork(b bool) bool        { return b }
+func EqStr(a, b string) bool { return a == b }
+func Concrete(x int) int     { return x }
+func Symbolic() bool         { return false }
+func IsConcrete(x int) bool  { return true }
+func Fork(b bool) bool       { return b }
 
 // Observe records values; the executor evaluates them under the model and the
 // driver compares both renderings.
